@@ -213,7 +213,9 @@ func (g *lcGen) callTexts(c *ast.CallExpr) []string {
 			var out []string
 			ast.Inspect(lit.Body, func(n ast.Node) bool {
 				if ic, ok := n.(*ast.CallExpr); ok {
-					out = append(out, g.callTexts(ic)...)
+					for _, t := range g.callTexts(ic) {
+						out = append(out, g.stripRecv(sel.X)+".Do:"+t)
+					}
 				}
 				return true
 			})
@@ -608,6 +610,11 @@ func (g *lcGen) runRecover(fd *ast.FuncDecl) []string {
 					switch y := m.(type) {
 					case *ast.CallExpr:
 						out = append(out, p.calleeText(y))
+						if p.calleeText(y) == "fmt.Errorf" {
+							for _, a := range y.Args {
+								out = append(out, "errorf-arg:"+p.text(a))
+							}
+						}
 					case *ast.AssignStmt:
 						for _, l := range y.Lhs {
 							if id, ok := l.(*ast.Ident); ok && named[id.Name] {
